@@ -21,6 +21,8 @@ from urllib.parse import urlsplit, unquote
 from urllib.error import URLError
 from xml.etree import ElementTree
 
+from elementpath import ElementNode
+
 from xmlschema.aliases import SettingsType, ElementType, EtreeType, NsmapType, \
     NormalizedLocationsType, LocationsType, XMLSourceType, IOType, \
     LazyType, IterParseType, UriMapperType, BaseUrlType, BlockType
@@ -734,6 +736,14 @@ class XMLResource(XMLResourceLoader):
                         if ancestors is not None:
                             ancestors.pop()
                     elif level == path_depth:
+                        if path_depth > lazy_depth and self._xpath_root is not None \
+                                and self._xpath_root.children:
+                            # The element in progress can have been extended by the parser
+                            # after its XPath nodes were built: drop its cached subtree.
+                            last_node = self._xpath_root.children[-1]
+                            if isinstance(last_node, ElementNode):
+                                last_node.children.clear()
+
                         if select_all or node in selector.iter_select(self):
                             yield node
                     if level == lazy_depth:
